@@ -85,3 +85,269 @@ Example ex_split11 : exists r', decompose Checked fS5 bS5 tS5 11
                        (rng_of [160; 17; 209; 169; 88; 130; 17; 34; 237; 248; 19; 247; 229; 220; 110; 52; 29; 114; 230; 128])
                      = Done ([(mkIdeal [[11; 0]; [7; 1]] tS5, 1); (mkIdeal [[11; 0]; [3; 1]] tS5, 1)], r').
 Proof. eexists. vm_compute. reflexivity. Qed.
+
+(** ** Third wave: the factors behind the ideals, the unconditional degree sum
+
+    [DecompW3Factors.decompose_full] (a definition of the proof development, not of the model) is
+    [decompose] with the mod-p factor g_i kept beside each (P_i, e_i); [proj_full (g, P, e) = (P, e)],
+    [factor_of (g, P, e) = (g, e)]. *)
+From Coq Require Import Znumtheory Lia.
+From RNT.Refine Require Import MonicZ DecompW3Factors.
+
+(** [P] companion_projection: [decompose] is exactly the projection of the companion, outcome by outcome
+    (values, panic classes, fuel, remaining draws), for all inputs. *)
+Theorem companion_projection : forall md f b t p r,
+  decompose md f b t p r =
+  match decompose_full md f b t p r with
+  | Done (l, r') => Done (map proj_full l, r')
+  | Panic c => Panic c
+  | OutOfFuel => OutOfFuel
+  end.
+Proof. exact decompose_full_proj. Qed.
+
+(** [P] degree_sum (replaces the conditional degree_sum_partial): for p prime, f monic ([lmonic f]: the last
+    coefficient is 1) with at most 2^64 coefficients, both build profiles and every draw stream: whenever
+    [decompose] returns [res], it is the projection of the triples (g_i, P_i, e_i) of the companion run, the
+    (g_i, e_i) are what [factorize_mod_p] returned on the same draws, and sum e_i deg g_i = deg f.
+    No flag: the product clause of C08 ([factorize_mod_p_product], with the g_i monic) gives the degrees. *)
+Theorem degree_sum : forall md f b t p r res r',
+  prime p -> lmonic f -> Z.of_nat (length f) <= two64 ->
+  decompose md f b t p r = Done (res, r') ->
+  exists gs, decompose_full md f b t p r = Done (gs, r') /\ res = map proj_full gs /\
+             factorize_mod_p md f p (usize_or_0 p) r = Done (map factor_of gs, r') /\
+             DecompDegree.degree_sum (map factor_of gs) = pdeg f.
+Proof. exact degree_sum_std. Qed.
+
+(** Non-vacuity: Z[i] at 5 (split), 3 (inert), 2 (ramified); Dedekind's cubic x^3 - x^2 - 2x - 8 with its
+    maximal order Z[theta, (theta^2 + theta)/2] (index 2) at p = 3 (inert). *)
+Definition fD : list Z := [-8; -2; -1; 1].
+Definition bD : qmat := [[Q2Qc 1; Q2Qc 0; Q2Qc 0]; [Q2Qc 0; Q2Qc 1; Q2Qc 0]; [Q2Qc 0; Q2Qc (1 # 2); Q2Qc (1 # 2)]].
+Definition tD : table := [[[1; 0; 0]; [0; 1; 0]; [0; 0; 1]];
+                          [[0; 1; 0]; [0; -1; 2]; [4; 0; 2]];
+                          [[0; 0; 1]; [4; 0; 2]; [6; 2; 3]]].
+Example ex_dedekind : get_mult_table bD fD = Done tD /\ lmonic fD /\ lmonic fZi
+                      /\ (do zt <- trivial_order_monic fD; order_index bD zt) = Done 2.
+Proof. vm_compute. repeat split; reflexivity. Qed.
+Example ex_full_split : exists r', decompose_full Checked fZi bZi tZi 5 draws5
+    = Done ([([2; 1], mkIdeal [[5; 0]; [2; 1]] tZi, 1); ([3; 1], mkIdeal [[5; 0]; [3; 1]] tZi, 1)], r')
+    /\ DecompDegree.degree_sum [([2; 1], 1); ([3; 1], 1)] = pdeg fZi.
+Proof. eexists. vm_compute. split; reflexivity. Qed.
+Example ex_full_inert_ramified :
+  decompose_full Checked fZi bZi tZi 3 (rng_of []) = Done ([([1; 0; 1], mkIdeal [[3; 0]; [0; 3]] tZi, 1)], rng_of [])
+  /\ decompose_full Checked fZi bZi tZi 2 (rng_of []) = Done ([([1; 1], mkIdeal [[2; 0]; [1; 1]] tZi, 2)], rng_of [])
+  /\ DecompDegree.degree_sum [([1; 0; 1], 1)] = pdeg fZi /\ DecompDegree.degree_sum [([1; 1], 2)] = pdeg fZi.
+Proof. vm_compute. repeat split; reflexivity. Qed.
+Example ex_full_dedekind :
+  decompose_full Checked fD bD tD 3 (rng_of [])
+  = Done ([([1; 1; 2; 1], mkIdeal [[3; 0; 0]; [0; 3; 0]; [0; 0; 3]] tD, 1)], rng_of [])
+  /\ DecompDegree.degree_sum [([1; 1; 2; 1], 1)] = pdeg fD.
+Proof. vm_compute. split; reflexivity. Qed.
+
+(** ** Third wave: the returned ideals are proper, meet Z in pZ, and are pairwise distinct
+
+    Hypotheses (all in list vocabulary, n = number of rows of the stored basis b): p prime; f monic with
+    n + 1 <= 2^64 coefficients; b is n x n ([qshape]) with first row (1, 0, .., 0), i.e. w_0 = 1;
+    t is the table [get_mult_table b f] of that order; Z[theta] lies in the order: the power basis is an integer
+    combination of b, [qmmul n Sl b = identity] for an n x n integer matrix Sl.  That p does not divide the
+    index is not a hypothesis: it is the test [decompose] performs before it returns.
+    [In_rowspanZ n v (i_hnf P)] is membership of the coordinate vector v in the ideal; [unit_vec n 0] is the
+    coordinate vector of 1. *)
+From RNT.Refine Require Import OrderCanon DecompW3Top.
+
+(** [P] prime_above_proper: every returned P_i = (g_i(theta)) + (p) is a proper ideal (1 is not in P_i) and
+    [cap_z P_i] returns p, and [Ideal::contains] on P_i and the coordinate vector of 1 returns false (both
+    profiles), for the order of any index prime to p (not only the equation order), both profiles,
+    every draw stream.  Proof: the index d times any element of the order lies in Z[theta]; for v in P_i this gives
+    d v = g_i A + p A' - Q f in Z[x] (division by the monic f stays in Z[x]), so g_i divides d v modulo p; for
+    v = 1 that is impossible (d is a unit mod p, deg g_i >= 1).  P_i contains p w_j for all j, so its normal form
+    has n rows and the top-left entry divides p; it is not 1. *)
+Theorem prime_above_proper : forall md f b t Sl p r res r',
+  prime p -> lmonic f -> Z.of_nat (length f) <= two64 ->
+  let n := length b in
+  length f = S n -> (1 <= n)%nat -> qshape n n b ->
+  nth 0 b [] = Q2Qc 1 :: repeat (Q2Qc 0) (n - 1) ->
+  get_mult_table b f = Done t -> shape n n Sl -> qmmul n Sl b = identity fopsQc n ->
+  decompose md f b t p r = Done (res, r') ->
+  Forall (fun Pe : ideal * Z =>
+            ~ In_rowspanZ n (unit_vec n 0) (i_hnf (fst Pe)) /\ cap_z (fst Pe) = Done p /\
+            forall md', contains md' (fst Pe) (unit_vec n 0) = Done false) res.
+Proof. exact prime_above_proper_std. Qed.
+
+(** [P] primes_distinct: the returned ideals are pairwise different (as stored normal forms): P_i = P_j puts
+    g_j(theta) in P_i, so g_i divides g_j modulo p; both are monic irreducible (C08 factorize_mod_p_irreducible),
+    hence equal, and the factors returned by [factorize_mod_p] are pairwise distinct. *)
+Theorem primes_distinct : forall md f b t Sl p r res r',
+  prime p -> lmonic f -> Z.of_nat (length f) <= two64 ->
+  let n := length b in
+  length f = S n -> (1 <= n)%nat -> qshape n n b ->
+  nth 0 b [] = Q2Qc 1 :: repeat (Q2Qc 0) (n - 1) ->
+  get_mult_table b f = Done t -> shape n n Sl -> qmmul n Sl b = identity fopsQc n ->
+  decompose md f b t p r = Done (res, r') ->
+  NoDup (map (fun Pe : ideal * Z => i_hnf (fst Pe)) res).
+Proof. exact primes_distinct_std. Qed.
+
+(** Non-vacuity: the hypotheses hold for Z[i] (Sl = identity; runs ex_split (p = 5), ex_inert (3), ex_ramified (2)),
+    for Z[(1+sqrt 5)/2] over x^2 - 5 (index 2; sqrt 5 = -w_0 + 2 w_1; run ex_split11) and for the maximal order
+    of Dedekind's cubic (index 2; theta^2 = -w_1 + 2 w_2; p = 3 inert).  The conclusion is not trivially true:
+    the unit ideal contains 1, and [cap_z] of the unit ideal is 1. *)
+Definition SlZi : list (list Z) := [[1; 0]; [0; 1]].
+Definition SlS5 : list (list Z) := [[1; 0]; [-1; 2]].
+Definition SlD : list (list Z) := [[1; 0; 0]; [0; 1; 0]; [0; -1; 2]].
+Example ex_hyps_Zi :
+  lmonic fZi /\ length fZi = S (length bZi) /\ qshape 2 2 bZi /\ nth 0 bZi [] = Q2Qc 1 :: repeat (Q2Qc 0) (2 - 1)
+  /\ get_mult_table bZi fZi = Done tZi /\ shape 2 2 SlZi /\ qmmul 2 SlZi bZi = identity fopsQc 2.
+Proof. repeat split; try reflexivity; repeat constructor. Qed.
+Example ex_hyps_S5 :
+  lmonic fS5 /\ length fS5 = S (length bS5) /\ qshape 2 2 bS5 /\ nth 0 bS5 [] = Q2Qc 1 :: repeat (Q2Qc 0) (2 - 1)
+  /\ get_mult_table bS5 fS5 = Done tS5 /\ shape 2 2 SlS5 /\ qmmul 2 SlS5 bS5 = identity fopsQc 2.
+Proof. repeat split; try (vm_compute; reflexivity); repeat constructor. Qed.
+Example ex_hyps_D :
+  lmonic fD /\ length fD = S (length bD) /\ qshape 3 3 bD /\ nth 0 bD [] = Q2Qc 1 :: repeat (Q2Qc 0) (3 - 1)
+  /\ get_mult_table bD fD = Done tD /\ shape 3 3 SlD /\ qmmul 3 SlD bD = identity fopsQc 3.
+Proof. repeat split; try (vm_compute; reflexivity); repeat constructor. Qed.
+Example ex_dedekind_inert :
+  decompose Checked fD bD tD 3 (rng_of []) = Done ([(mkIdeal [[3; 0; 0]; [0; 3; 0]; [0; 0; 3]] tD, 1)], rng_of [])
+  /\ cap_z (mkIdeal [[3; 0; 0]; [0; 3; 0]; [0; 0; 3]] tD) = Done 3
+  /\ cap_z (mkIdeal [[5; 0]; [2; 1]] tZi) = Done 5 /\ cap_z (mkIdeal [[2; 0]; [1; 1]] tZi) = Done 2
+  /\ contains Checked (mkIdeal [[5; 0]; [2; 1]] tZi) (unit_vec 2 0) = Done false
+  /\ contains Checked (mkIdeal [[1; 0]; [0; 1]] tZi) (unit_vec 2 0) = Done true.
+Proof. vm_compute. repeat split; reflexivity. Qed.
+Example ex_unit_ideal_not_proper :
+  In_rowspanZ 2 (unit_vec 2 0) [[1; 0]; [0; 1]] /\ cap_z (mkIdeal [[1; 0]; [0; 1]] tZi) = Done 1
+  /\ ~ NoDup (map (fun Pe : ideal * Z => i_hnf (fst Pe)) [(mkIdeal [[5; 0]; [2; 1]] tZi, 1); (mkIdeal [[5; 0]; [2; 1]] tZi, 1)]).
+Proof.
+  split; [exists [1; 0]; split; reflexivity|]. split; [reflexivity|].
+  intros H. inversion H as [|x l Hn _]; subst. apply Hn. left. reflexivity.
+Qed.
+
+(** ** Third wave: the returned ideals are prime ideals, and pairwise comaximal
+
+    Same hypotheses as [prime_above_proper].  [bil t u v] is the product of the elements with coordinate
+    vectors u, v ([MultTable::mul]; C16 [mt_mul_bilinear]).  Proof: with the rows of Sl every integer polynomial
+    of degree < n has coordinates in the order, so the converse of the membership criterion holds:
+    v is in P_i  iff  g_i divides (index * v) modulo p.  Since g_i is irreducible modulo p (C08), a product lies
+    in P_i only if a factor does; and for g_i <> g_j a Bezout relation u g_i + w g_j = 1 mod p gives
+    1 = a + b with a in P_i, b in P_j. *)
+
+(** [P] primes_prime: every returned P_i is a prime ideal of the order: it is proper ([prime_above_proper]) and
+    whenever the product of two elements of the order lies in P_i, one of them does. *)
+Theorem primes_prime : forall md f b t Sl p r res r',
+  prime p -> lmonic f -> Z.of_nat (length f) <= two64 ->
+  let n := length b in
+  length f = S n -> (1 <= n)%nat -> qshape n n b ->
+  nth 0 b [] = Q2Qc 1 :: repeat (Q2Qc 0) (n - 1) ->
+  get_mult_table b f = Done t -> shape n n Sl -> qmmul n Sl b = identity fopsQc n ->
+  decompose md f b t p r = Done (res, r') ->
+  Forall (fun Pe : ideal * Z =>
+    forall u v, length u = n -> length v = n ->
+      In_rowspanZ n (bil t u v) (i_hnf (fst Pe)) ->
+      In_rowspanZ n u (i_hnf (fst Pe)) \/ In_rowspanZ n v (i_hnf (fst Pe))) res.
+Proof. exact primes_prime_std. Qed.
+
+(** [P] primes_comaximal: for two different positions i, j of the answer, whenever [P_i + P_j] (the model's
+    [ideal_add], either profile) returns K, K is the whole order: it contains every coordinate vector. *)
+Theorem primes_comaximal : forall md f b t Sl p r res r',
+  prime p -> lmonic f -> Z.of_nat (length f) <= two64 ->
+  let n := length b in
+  length f = S n -> (1 <= n)%nat -> qshape n n b ->
+  nth 0 b [] = Q2Qc 1 :: repeat (Q2Qc 0) (n - 1) ->
+  get_mult_table b f = Done t -> shape n n Sl -> qmmul n Sl b = identity fopsQc n ->
+  decompose md f b t p r = Done (res, r') ->
+  forall i j dflt md' K, i <> j -> (i < length res)%nat -> (j < length res)%nat ->
+    ideal_add md' (fst (nth i res dflt)) (fst (nth j res dflt)) = Done K ->
+    forall v, length v = n -> In_rowspanZ n v (i_hnf K).
+Proof. exact primes_comaximal_std. Qed.
+
+(** Non-vacuity: in Z[i] the two primes above 5 add up to the unit ideal; the primality predicate is not
+    trivially true: (5) contains (2 + i)(2 - i) = 5 but neither factor. *)
+Example ex_comaximal :
+  ideal_add Checked (mkIdeal [[5; 0]; [2; 1]] tZi) (mkIdeal [[5; 0]; [3; 1]] tZi) = Done (mkIdeal [[1; 0]; [0; 1]] tZi).
+Proof. vm_compute. reflexivity. Qed.
+Example ex_not_prime :
+  bil tZi [2; 1] [2; -1] = [5; 0] /\ In_rowspanZ 2 [5; 0] [[5; 0]; [0; 5]]
+  /\ ~ In_rowspanZ 2 [2; 1] [[5; 0]; [0; 5]] /\ ~ In_rowspanZ 2 [2; -1] [[5; 0]; [0; 5]].
+Proof.
+  split; [reflexivity|]. split; [exists [1; 0]; split; reflexivity|].
+  split; intros [c [Hc E]]; destruct c as [|c0 [|c1 [|c2 c]]]; try discriminate Hc;
+    cbn in E; injection E; intros; lia.
+Qed.
+
+(** ** Third wave: the norms (residue degrees)
+
+    One more hypothesis: the stored basis is lower triangular (b[i][j] = 0 for j > i), as every basis produced
+    by [Order::from_basis] / [hnf_reduce] is.  Any index prime to p. *)
+
+(** [P] residue_degrees: whenever [decompose] returns, [Ideal::norm] of every returned P_i returns p^(deg g_i),
+    g_i the factor of f mod p behind P_i, and sum e_i deg g_i = n: the residue degrees f_i = deg g_i read off the
+    norms satisfy sum e_i f_i = n.  Proof: the j-th diagonal entry of the normal form generates the leading
+    coefficients at j of the lattice; by the membership criterion (v in P_i iff g_i | index * v mod p) these are
+    the multiples of p for j < deg g_i and everything for j >= deg g_i. *)
+Theorem residue_degrees : forall md f b t Sl p r res r',
+  prime p -> lmonic f -> Z.of_nat (length f) <= two64 ->
+  let n := length b in
+  length f = S n -> (1 <= n)%nat -> qshape n n b ->
+  nth 0 b [] = Q2Qc 1 :: repeat (Q2Qc 0) (n - 1) ->
+  (forall i j, (i < j)%nat -> (j < n)%nat -> nth j (nth i b []) (Q2Qc 0) = Q2Qc 0) ->
+  get_mult_table b f = Done t -> shape n n Sl -> qmmul n Sl b = identity fopsQc n ->
+  decompose md f b t p r = Done (res, r') ->
+  exists gs, decompose_full md f b t p r = Done (gs, r') /\ res = map proj_full gs /\
+             Forall (fun x : list Z * ideal * Z => norm (snd (fst x)) = Done (p ^ pdeg (fst (fst x)))) gs /\
+             DecompDegree.degree_sum (map factor_of gs) = pdeg f.
+Proof. exact residue_degrees_std. Qed.
+
+(** Non-vacuity: the three bases are lower triangular; norms 5, 5 (split), 9 (inert), 2 (ramified) in Z[i],
+    11, 11 over x^2 - 5 (index 2), 27 for Dedekind's cubic at 3 (index 2). *)
+Example ex_triangular :
+  (forall i j, (i < j)%nat -> (j < 2)%nat -> nth j (nth i bZi []) (Q2Qc 0) = Q2Qc 0) /\
+  (forall i j, (i < j)%nat -> (j < 2)%nat -> nth j (nth i bS5 []) (Q2Qc 0) = Q2Qc 0) /\
+  (forall i j, (i < j)%nat -> (j < 3)%nat -> nth j (nth i bD []) (Q2Qc 0) = Q2Qc 0).
+Proof.
+  repeat split; intros i j Hi Hj;
+    destruct i as [|[|[|i]]]; destruct j as [|[|[|j]]]; try lia; reflexivity.
+Qed.
+Example ex_norms :
+  norm (mkIdeal [[5; 0]; [2; 1]] tZi) = Done (5 ^ pdeg [2; 1]) /\ norm (mkIdeal [[5; 0]; [3; 1]] tZi) = Done (5 ^ pdeg [3; 1])
+  /\ norm (mkIdeal [[3; 0]; [0; 3]] tZi) = Done (3 ^ pdeg [1; 0; 1]) /\ norm (mkIdeal [[2; 0]; [1; 1]] tZi) = Done (2 ^ pdeg [1; 1])
+  /\ norm (mkIdeal [[11; 0]; [7; 1]] tS5) = Done 11
+  /\ norm (mkIdeal [[3; 0; 0]; [0; 3; 0]; [0; 0; 3]] tD) = Done (3 ^ pdeg [1; 1; 2; 1]).
+Proof. vm_compute. repeat split; reflexivity. Qed.
+
+(** ** Third wave: absence of panics *)
+
+(** [P] decompose_no_panic: for p prime, f monic, b the n x n stored basis of an order containing Z[theta] with
+    its table ([get_mult_table b f]), both profiles, every draw stream: the index computation returns some idx;
+    if p | idx the documented panic ([decompose_refuses]); otherwise [decompose] does not panic: it returns, or
+    the model runs out of the fuel of the randomised equal-degree loop of the factoriser (C08
+    factorize_mod_p_no_panic: in the code that loop ends with probability 1).  In particular the assertion
+    [assert!(inv[k].is_integer())] of [to_z_basis_int] never fires: g_i(theta) lies in Z[theta], inside the order,
+    and the debug assertions of [Algebraic::with_expr], [Ideal::principal] and [Add] hold. *)
+Theorem decompose_no_panic : forall md f b t Sl p r,
+  prime p -> lmonic f -> Z.of_nat (length f) <= two64 ->
+  let n := length b in
+  length f = S n -> (1 <= n)%nat -> qshape n n b ->
+  get_mult_table b f = Done t -> shape n n Sl -> qmmul n Sl b = identity fopsQc n ->
+  exists zt idx,
+    trivial_order_monic f = Done zt /\ order_index b zt = Done idx /\
+    ((p | idx) -> decompose md f b t p r = Panic POther) /\
+    (~ (p | idx) ->
+       (exists res r', decompose md f b t p r = Done (res, r')) \/ decompose md f b t p r = OutOfFuel).
+Proof. exact decompose_no_panic_std. Qed.
+
+(** Non-vacuity: all three alternatives occur (ex_refused: p = 2 | index 2 of Z[sqrt 5]; ex_split11: returned;
+    an empty draw stream on a splitting prime makes the model give up after 400 rejected draws). *)
+Example ex_out_of_fuel : decompose Checked fZi bZi tZi 5 (rng_of []) = OutOfFuel.
+Proof. vm_compute. reflexivity. Qed.
+
+(** ** The product formula needs more than these hypotheses
+
+    prod P_i^e_i = (p) is NOT proved.  It is false of the model (and of the code) under the hypotheses above:
+    they do not say that the order is maximal at p.  Z[sqrt 5] (index 1 in itself, so p = 2 passes the index test)
+    gives P = (2, 1 + sqrt 5) with e = 2, and P * P = (4, 2 + 2 sqrt 5) is not (2).  A proof needs the
+    hypothesis that the order is p-maximal (Dedekind's criterion), which the routine cannot check. *)
+Definition tZs5 : table := [[[1; 0]; [0; 1]]; [[0; 1]; [5; 0]]].
+Example ex_product_needs_maximal :
+  get_mult_table bZi fS5 = Done tZs5
+  /\ decompose Checked fS5 bZi tZs5 2 (rng_of []) = Done ([(mkIdeal [[2; 0]; [1; 1]] tZs5, 2)], rng_of [])
+  /\ ideal_mul Checked (mkIdeal [[2; 0]; [1; 1]] tZs5) (mkIdeal [[2; 0]; [1; 1]] tZs5) = Done (mkIdeal [[4; 0]; [2; 2]] tZs5)
+  /\ principal Checked tZs5 [2; 0] = Done (mkIdeal [[2; 0]; [0; 2]] tZs5).
+Proof. vm_compute. repeat split; reflexivity. Qed.
